@@ -200,6 +200,27 @@ def run(tier, seed):
             nontrivial.add((cn, nm))
             if outcome(lambda: f(x)) != outcome(lambda: f(s)):
                 c.fail("%s differs from str: %r vs %r" % (nm, outcome(lambda: f(x)), outcome(lambda: f(s))), {"class": cn, "text": s, "op": nm})
+    # ---- histories: the same delegated call before and after the object is changed (nothing may remember the old text)
+    import mwparserfromhell as _M
+    calls = [("upper", ()), ("split", ()), ("count", ("a",)), ("find", ("new",)), ("startswith", ("{{",)), ("__add__", ("z",)), ("strip", ()),
+             ("replace", ("a", "b")), ("__len__", ()), ("encode", ()), ("title", ()), ("__mul__", (2,)), ("splitlines", ()), ("isalpha", ()), ("zfill", (40,))]
+    for doc in ["{{Foo|a=1}} and text", "plain", "[[a|b]] ''c''", "<b x=1>y</b>"]:
+        for name, args in calls:
+            code = _M.parse(doc)
+            targets = [t for t in [code] + list(code.filter(recursive=False))[:2] if real_lookup(t, name, StringMixIn) in ("Delegated", "FoundMixin")]
+            before = [outcome(lambda t=t: getattr(t, name)(*args)) for t in targets]
+            code.append(" plus {{new|a}}")
+            for t in code.filter_templates()[:1]:
+                t.add("k", "v")
+                t.name = "Renamed"
+            for t in code.filter_text()[:1]:
+                t.value = str(t.value) + "!"
+            for t, _b in zip(targets, before):
+                c.cov["evaluations"] += 1
+                got, want = outcome(lambda: getattr(t, name)(*args)), outcome(lambda: getattr(str(t), name)(*args))
+                if got != want:
+                    c.fail("%s%r on a %s that was changed after an earlier call: %r, on its text %r" % (name, args, type(t).__name__, got, want),
+                           {"class": type(t).__name__, "text": doc, "name": name, "history": "call, edit, call"})
     c.cov["distinct_nontrivial"] = len(nontrivial)
     c.cov["rule"] = ("objects: every node / Wikicode / Attribute / Parameter of fixed and generated documents (distinct by class+text); "
                      "names: all of dir(str) + names str lacks; each delegated callable is applied to 25 argument tuples on the object and on "
